@@ -83,14 +83,18 @@ impl ColumnBatchBuilder {
 
     /// Finish the batch, failing if any components are missing
     pub fn build(mut self) -> Result<ColumnBatch, BatchIncomplete> {
-        let mut archetype = self.archetype.take().unwrap();
-        if archetype
+        if self
+            .archetype
+            .as_ref()
+            .unwrap()
             .types()
             .iter()
             .any(|ty| self.fill.get(&ty.id()).copied().unwrap_or(0) != self.target_fill)
         {
+            // Components written so far are dropped by `Drop`
             return Err(BatchIncomplete { _opaque: () });
         }
+        let mut archetype = self.archetype.take().unwrap();
         unsafe {
             archetype.set_len(self.target_fill);
         }
@@ -106,7 +110,7 @@ impl Drop for ColumnBatchBuilder {
                 unsafe {
                     let base = archetype.get_dynamic(ty.id(), 0, 0).unwrap();
                     for i in 0..fill {
-                        base.as_ptr().add(i as usize).drop_in_place()
+                        ty.drop(base.as_ptr().add(i as usize * ty.layout().size()))
                     }
                 }
             }
